@@ -1359,7 +1359,7 @@ func (enc *VP8Encoder) EncodeFrame() ([]byte, error) {
 	useParallel := enc.mbH >= 4 && enc.config.Method >= 3 && !doSearch
 
 	var stats ProbaStats
-	for pass := 0; pass < maxPasses; pass++ {
+	for pass := 0; ; pass++ {
 		enc.tokens.Reset()
 		if useParallel {
 			enc.encodeFrameParallel(&stats)
@@ -1370,8 +1370,10 @@ func (enc *VP8Encoder) EncodeFrame() ([]byte, error) {
 		if !doSearch {
 			break // quality mode: single pass
 		}
-		// Rate control: check if we hit the target.
-		if enc.adjustQuantForTarget() {
+		// Rate control: stop when the target is hit or when no pass is left.
+		// The quantizers are only changed when another pass follows, so the
+		// header always carries the ones the recorded tokens were coded with.
+		if enc.adjustQuantForTarget(pass+1 >= maxPasses) {
 			break
 		}
 	}
@@ -1544,8 +1546,10 @@ func (s *passStats) computeNextQ() float64 {
 
 // adjustQuantForTarget adjusts quantizers if a target size or PSNR is specified.
 // Returns true if the current value is close enough or convergence is reached.
+// lastPass reports that no further encoding pass will run: the quantizers are
+// then left as they are and the function returns true.
 // Matches C libwebp's rate control logic in VP8EncTokenLoop / StatLoop.
-func (enc *VP8Encoder) adjustQuantForTarget() bool {
+func (enc *VP8Encoder) adjustQuantForTarget(lastPass bool) bool {
 	// Lazy init of rate control state.
 	if enc.rateCtrl == nil {
 		enc.rateCtrl = enc.initPassStats()
@@ -1572,7 +1576,7 @@ func (enc *VP8Encoder) adjustQuantForTarget() bool {
 	}
 
 	// Check convergence: DQ_LIMIT = 0.4 (matching C libwebp).
-	if math.Abs(enc.rateCtrl.dq) <= 0.4 && !enc.rateCtrl.isFirst {
+	if lastPass || (math.Abs(enc.rateCtrl.dq) <= 0.4 && !enc.rateCtrl.isFirst) {
 		return true
 	}
 
